@@ -569,15 +569,16 @@ impl<'a> DataOperator<'a> {
                 )),
             },
             DataOperator::EqualsInt(n) => Ok(format!("= {}", n)),
-            DataOperator::EqualsFloat(n) => Ok(format!("= {}", n)),
+            //floats are written with {:?} so an integral value keeps its decimal point (1.0, not 1) and is read back as a float
+            DataOperator::EqualsFloat(n) => Ok(format!("= {:?}", n)),
             DataOperator::GreaterThan(n) => Ok(format!("> {}", n)),
             DataOperator::GreaterThanOrEqual(n) => Ok(format!(">= {}", n)),
             DataOperator::LessThan(n) => Ok(format!("< {}", n)),
             DataOperator::LessThanOrEqual(n) => Ok(format!("<= {}", n)),
-            DataOperator::GreaterThanFloat(n) => Ok(format!("> {}", n)),
-            DataOperator::GreaterThanOrEqualFloat(n) => Ok(format!(">= {}", n)),
-            DataOperator::LessThanOrEqualFloat(n) => Ok(format!("<= {}", n)),
-            DataOperator::LessThanFloat(n) => Ok(format!("< {}", n)),
+            DataOperator::GreaterThanFloat(n) => Ok(format!("> {:?}", n)),
+            DataOperator::GreaterThanOrEqualFloat(n) => Ok(format!(">= {:?}", n)),
+            DataOperator::LessThanOrEqualFloat(n) => Ok(format!("<= {:?}", n)),
+            DataOperator::LessThanFloat(n) => Ok(format!("< {:?}", n)),
             DataOperator::ExactDatetime(d) => Ok(format!("= {}", d.to_rfc3339())),
             DataOperator::AfterDatetime(d) => Ok(format!("> {}", d.to_rfc3339())),
             DataOperator::AtOrAfterDatetime(d) => Ok(format!(">= {}", d.to_rfc3339())),
